@@ -143,8 +143,8 @@ def units():
         Unit('guard', ['C05_guard', 'C05_pass'], ['Proofs/CondProofs.v', 'Proofs/GuardProofs.v'],
              ['arm_v6.ArmV6.condition_passed'], None, IMPORTS, SPEC_IMPORTS),
         Unit('condfail_search', ['C05_step_cond_fails', 'C05_skip_pc', 'C05_skip_regs', 'C05_skip_mem', 'C05_skip_sys', 'C05_skip_cpsr',
-                                 'C05_step_cond_fails_example'],
-             ['Proofs/StepProofs.v', 'Proofs/StepExample.v'],
+                                 'C05_step_cond_fails_example', 'C05_add_imm_a1_skipped_closed'],
+             ['Proofs/StepProofs.v', 'Proofs/StepExample.v', 'Proofs/StepFetch.v', 'Proofs/StepClosed.v', 'Proofs/StepInstances.v'],
              ['arm_v6.ArmV6.emulate_cycle', 'arm_v6.ArmV6.execute_instruction', 'arm_v6.ArmV6.increment_pc_if_needed'],
              condfail_cases, IMPORTS, 'From Coq Require Import ZArith List.'),
     ]
